@@ -281,7 +281,7 @@ package meta
 //@   requires u != nil
 //@   ghost denied bool = false
 //@   call (*UserInfo).AuthorizeDatabase
-//@     requires arg1 == (p.Name != "" ? p.Name : database)
+//@     requires [named_database_else_the_request_database] arg1 == (p.Name != "" ? p.Name : old(database))
 //@     set denied = denied || !ret0
 //@   ensures result == nil && !u.Admin && !u.Rwuser ==> !denied
 //@   loop 1
